@@ -252,8 +252,29 @@ def check_partial(ctx: Ctx, spec, doc: Doc, xml: bytes, reqs: list, pend: list, 
     static_of, _ = C6.static_lookup(schema, eg)
     ns = {'': L.TNS} if spec.tns else None
 
+    last_paths: list = []
+
     def run(path: str, namespaces) -> Any:
-        return [C6.canon_err(e) for e in schema.iter_errors(XMLResource(xml), path=path, namespaces=namespaces)]
+        errs = list(schema.iter_errors(XMLResource(xml), path=path, namespaces=namespaces))
+        last_paths[:] = [C6.norm_path(e.path) for e in errs]
+        return [C6.canon_err(e) for e in errs]
+
+    from xmlschema.utils.etree import etree_getpath
+    f3_nodes = [i for i, d, _, n in eg.flat if n['decls'] and XSI_TYPE in eg.elem[i].attrib]
+
+    def f3_explains(selected: list, got: list, want_all: list) -> bool:
+        """C20-F3 (= C06-F10): a selected element that carries its own xmlns declarations and an xsi:type is validated
+        without these declarations; outside such elements the errors agree"""
+        hit = [i for i in f3_nodes if i in selected]
+        if not hit:
+            return False
+        bare = lambda q: re.sub(r'\{[^}]*\}', '', q or '')  # noqa
+        prefixes = [bare(C6.norm_path(etree_getpath(eg.elem[i], eg.res.root, None, False, True))) for i in hit]
+        inside = lambda q: any(bare(q) == pf or bare(q).startswith(pf + '/') for pf in prefixes)  # noqa
+        a = [c for q, c in zip(last_paths, got) if not inside(q)]
+        b = [eg.canon[i] for i, o in enumerate(eg.owner)
+             if any(eg.in_subtree(o, s_) for s_ in selected) and not any(eg.in_subtree(o, h) for h in hit)]
+        return sorted(non_stateful(a)) == sorted(non_stateful(b))
 
     def wildcard_on_levels(nids: list[int]) -> bool:
         for i in nids:
@@ -283,13 +304,30 @@ def check_partial(ctx: Ctx, spec, doc: Doc, xml: bytes, reqs: list, pend: list, 
             continue
         want = expected_part(eg, selected)
         npl = not all(doc.all_plain(i) for i in selected)
+        if k >= 2 and non_stateful(got) != want:
+            # C20-F4: with a `*` step before the last step the declaration is the first schema match of '/root/*/tag'
+            from xmlschema.validators import XsdElement
+            star = '/' + eg.res.root.tag + '/' + '/'.join('*' * k)
+            nonloc = []
+            for i in selected:
+                lk = schema.get_element(eg.node[i]['tag'], star)
+                g = eg.gov.get(i)
+                if not (lk is g or (isinstance(lk, XsdElement) and g is not None and lk.name == g.name and lk.type is g.type)):
+                    nonloc.append(i)
+            if nonloc:
+                ctx.known_hit('C20-F4')
+                ctx.count('star-lookup-nonlocal', len(nonloc))
+                continue
+        if non_stateful(got) != want and f3_explains(selected, got, want):
+            ctx.known_hit('C20-F3')
+            continue
         if non_stateful(got) != want:
             detail = {'kind': 'partial', 'got': got, 'want': want, 'non_plain_step': npl}
             fid = known_match(case, detail)
             ctx.known_hit(fid) if fid else ctx.failure('errors of the selected parts differ from the matching part of the full result', case, detail)
         # model (k = 1 uses the lazy driver's static lookup '/root/*' which is what get_element receives)
         tb = C6.build_tables(eg, schema, static_of) if k == 1 else None
-        if tb is not None and not npl:
+        if tb is not None and not npl and not any(i in selected for i in f3_nodes):
             reqs.append({'op': 'part', 'tree': eg.tree, 'k': 1, 'root': tb['root'], 'segs': tb['segs'], 'govs': tb['govs'],
                          'static': tb['static'], 'created': []})
             pend.append(('part', case, {'got': non_stateful(got), 'table': tb['table']}, None))
@@ -326,6 +364,9 @@ def check_partial(ctx: Ctx, spec, doc: Doc, xml: bytes, reqs: list, pend: list, 
         want = expected_part(eg, [nid])
         got_ns = non_stateful(got)
         # a path that selects nothing on the schema yields one "doesn't select any element" error
+        if got_ns != want and f3_explains([nid], got, want):
+            ctx.known_hit('C20-F3')
+            continue
         if got_ns != want:
             detail = {'kind': 'partial', 'got': got, 'want': want, 'non_plain_step': npl, 'predicate_meets_wildcard': pred_wild}
             fid = known_match(case, detail)
@@ -343,7 +384,11 @@ def check_partial(ctx: Ctx, spec, doc: Doc, xml: bytes, reqs: list, pend: list, 
         if sub is NOTFOUND:
             ctx.count('partial-decode:not-navigable')
             continue
-        a, b = norm_data(part), norm_data(sub)
+        try:
+            a, b = norm_data(part), norm_data(sub)
+        except Collision:
+            ctx.count('partial-decode:prefix-collision')
+            continue
         if a != b:
             detail = {'kind': 'partial', 'part': repr(a)[:600], 'matching part of the whole': repr(b)[:600],
                       'non_plain_step': npl, 'predicate_meets_wildcard': pred_wild}
@@ -368,19 +413,31 @@ def navigate(full: Any, doc: Doc, nid: int) -> Any:
         name = local(doc.eg.node[i]['tag'])
         k, n = doc.position(i)
         vals = []
+        nkeys = 0
         for key, v in cur.items():
             if isinstance(key, str) and key[:1] not in '@$' and unprefixed(key) == name:
                 vals.extend(v if isinstance(v, list) else [v])
-        if len(vals) != n:
+                nkeys += 1
+        if len(vals) != n or nkeys != 1:
             return NOTFOUND
         cur = vals[k - 1]
     return cur
 
 
+class Collision(Exception):
+    pass
+
+
 def norm_data(x: Any, top: bool = True) -> Any:
     if isinstance(x, dict):
-        d = {unprefixed(k) if isinstance(k, str) else k: norm_data(v, False) for k, v in x.items()
-             if not (isinstance(k, str) and k.startswith('@xmlns'))}
+        d = {}
+        for k, v in x.items():
+            if isinstance(k, str) and k.startswith('@xmlns'):
+                continue
+            k2 = unprefixed(k) if isinstance(k, str) else k
+            if k2 in d:
+                raise Collision()     # one element name spelled with two prefixes: order of the merged list is unknown
+            d[k2] = norm_data(v, False)
         if top and set(d) == {'$'}:
             return d['$']
         return d
@@ -439,6 +496,15 @@ def check_depth(ctx: Ctx, spec, doc: Doc, xml: bytes, reqs: list, pend: list, ba
                 ctx.failure('decoding with max_depth raised', case, repr(ex))
                 continue
             wantd = prune_data(full, keep)
+
+            def holes(x):
+                if isinstance(x, dict):
+                    return {k_: holes(v) for k_, v in x.items()}
+                if isinstance(x, list):
+                    y = [holes(v) for v in x]
+                    return 'HOLE' if y and all(v == 'HOLE' for v in y) else y
+                return x
+            cut, wantd = holes(cut), holes(wantd)
             if cut != wantd:
                 ctx.failure('max_depth changes the decoded data above the cut', case,
                             {'got': repr(cut)[:800], 'want': repr(wantd)[:800]})
@@ -479,7 +545,7 @@ def compare(ctx: Ctx, reqs: list, pend: list, drv: Optional[Driver]) -> None:
 
 
 def family(ctx: Ctx, drv: Optional[Driver]) -> None:
-    n_schemas = ctx.pick(60, 700)
+    n_schemas = ctx.pick(250, 2500)
     n_docs = ctx.pick(3, 6)
     built = 0
     attempts = 0
